@@ -768,11 +768,11 @@ Lemma read_entry_line (cs : bool) (st : rstate) (k v sn : string) opts :
   key_ok k -> value_ok v ->
   r_sect st = Some sn -> sget sn (r_done st) = Some opts ->
   let k' := if cs then k else lower k in
-  smem k' opts = false -> r_indent st = 0 ->
+  smem k' opts = false ->
   read_line cs (Ok st) (plain_line k v) =
   Ok (RState (sset (r_done st) sn (opts ++ [(k', Some [v])])%list) (Some sn) (Some k') 0).
 Proof.
-  intros [Hk [Hkr Hke]] [Hvn [Hvl [Hvr _]]] Hs Ho k' Hm Hi.
+  intros [Hk [Hkr Hke]] [Hvn [Hvl [Hvr _]]] Hs Ho k' Hm.
   destruct k as [|a kr]; [contradiction|]. destruct Hk as [Ha1 [Ha2 [Ha3 Ha4]]].
   (* the line is already stripped *)
   assert (Eline : plain_line (String a kr) v = String a (kr ++ spaces (key_width - String.length (String a kr)) ++ " = " ++ v)).
@@ -789,7 +789,7 @@ Proof.
   assert (Eind : indent_of (plain_line (String a kr) v) = 0).
   { unfold indent_of. rewrite Els. apply Nat.sub_diag. }
   unfold read_line. rewrite Estrip, Ecom. rewrite Eline at 1. cbv iota. try rewrite <- Eline.
-  rewrite Eind, Hs, Hi.
+  rewrite Eind, Hs.
   assert (Enew : new_line cs st (plain_line (String a kr) v) 0 =
                  Ok (RState (sset (r_done st) sn (opts ++ [(k', Some [v])])%list) (Some sn) (Some k') 0)).
   { unfold new_line. rewrite Eline at 1. rewrite header_of_other by assumption. rewrite Hs.
@@ -825,11 +825,10 @@ Qed.
 Lemma read_header_line cs st sn :
   sn <> EmptyString -> has_char "]"%char sn = false -> is_space (match sn with String a _ => a | _ => sp end) = false ->
   smem sn (r_done st) = false ->
-  match r_opt st with Some _ => r_indent st = 0 | None => True end ->
   exists ind,
   read_line cs (Ok st) ("[" ++ sn ++ "]") = Ok (RState (r_done st ++ [(sn, [])])%list (Some sn) None ind).
 Proof.
-  intros Hn Hb Hsp Hm Hi.
+  intros Hn Hb Hsp Hm.
   assert (Ers : rstrip (sn ++ "]") = sn ++ "]") by (apply rstrip_app_keep; [reflexivity|discriminate]).
   assert (Estrip : strip ("[" ++ sn ++ "]") = "[" ++ sn ++ "]").
   { unfold strip. simpl. rewrite Ers. destruct (sn ++ "]") eqn:E; [destruct sn; discriminate|reflexivity]. }
@@ -848,7 +847,7 @@ Proof.
   destruct (r_sect st); [|exact En]. destruct (r_opt st); [|exact En].
   assert (Eind : indent_of ("[" ++ sn ++ "]") = 0).
   { unfold indent_of. rewrite Eline, lstrip_nonspace by reflexivity. apply Nat.sub_diag. }
-  rewrite Hi. rewrite Eind in *. simpl. exact En.
+  rewrite Eind in *. simpl. exact En.
 Qed.
 
 (* ================================================================== the deviations are real (computed witnesses) *)
@@ -920,3 +919,45 @@ Proof. intros H V. simpl. rewrite H, V. reflexivity. Qed.
 
 Lemma clear_vars_forgets q c : c_vars (fst (apply_op q c OClearVars)) = [].
 Proof. destruct c; reflexivity. Qed.
+
+(* ================================================================== int and float read the same text *)
+Lemma scan_of_int_digits s : forall acc au z n,
+  int_digits acc au s = Some z -> (0 < n)%Z ->
+  exists n', (0 < n')%Z /\ scan_digits acc n (negb au) s = Some (z, n', EmptyString).
+Proof.
+  induction s as [|a r IH]; intros acc au z n H Hn; simpl in *.
+  - destruct au; [discriminate|]. inversion H. subst. exists n. split; [exact Hn|reflexivity].
+  - destruct (digit_val a) as [d|].
+    + destruct (IH _ _ _ (n + 1)%Z H ltac:(lia)) as [n' [Hn' E]]. exists n'. split; [exact Hn'|exact E].
+    + destruct (Ascii.eqb a underscore); [|discriminate]. destruct au; [discriminate|]. simpl in *.
+      destruct (IH _ _ _ n H Hn) as [n' [Hn' E]]. exists n'. split; [exact Hn'|exact E].
+Qed.
+
+Lemma float_of_int_unsigned s z : int_unsigned s = Some z -> float_unsigned s = Some (z, 0%Z).
+Proof.
+  unfold int_unsigned, float_unsigned. destruct s as [|a r]; [discriminate|].
+  cbn [scan_digits]. destruct (digit_val a) as [d|]; [|discriminate]. intros H.
+  destruct (scan_of_int_digits r d false z 1%Z H ltac:(lia)) as [n' [Hn' E]].
+  simpl negb in E. change (0 * 10 + d)%Z with d. change (0 + 1)%Z with 1%Z. rewrite E.
+  assert (L : (0 <? n' + 0)%Z = true) by (apply Z.ltb_lt; lia). rewrite L. reflexivity.
+Qed.
+
+Lemma int_float_agree (v : string) (z : Z) : val_int v = Ok z -> val_float v = Ok (FDec z 0%Z).
+Proof.
+  unfold val_int, val_float. destruct (strip v) as [|a r] eqn:E.
+  - simpl. discriminate.
+  - assert (G : forall (s : string) (zz : Z), int_unsigned s = Some zz -> forall neg : bool,
+                 match float_unsigned s with
+                 | Some (m, e) => Ok (FDec (if neg then (- m)%Z else m) e)
+                 | None => match float_special s with
+                           | Some (FInf _) => Ok (FInf neg) | Some f => Ok f | None => Err ErrValue end
+                 end = Ok (FDec (if neg then (- zz)%Z else zz) 0%Z)).
+    { intros s zz H neg. rewrite (float_of_int_unsigned s zz H). reflexivity. }
+    destruct a as [[] [] [] [] [] [] [] []];
+      try (destruct (int_unsigned (String _ r)) as [zz|] eqn:U; [|discriminate];
+           intros H; inversion H; subst; exact (G _ _ U false)).
+    + destruct (int_unsigned r) as [zz|] eqn:U; [|discriminate]. intros H. inversion H. subst.
+      first [exact (G _ _ U true)|exact (G _ _ U false)].
+    + destruct (int_unsigned r) as [zz|] eqn:U; [|discriminate]. intros H. inversion H. subst.
+      first [exact (G _ _ U true)|exact (G _ _ U false)].
+Qed.
